@@ -5,7 +5,7 @@ import copy
 
 from ..astutil import FuncTree, dominates
 from ..common import norm_stmt, site_id
-from ..deps import names_in, base_name
+from ..deps import names_in, base_name, dep_edges
 from ..index import AnalysisError
 from ..paths import MustAnalysis, DefiniteAssignment, describe
 from . import c01
@@ -338,7 +338,12 @@ def check_unique_selector(p, report, rule="R19.8"):
                             if isinstance(par, ast.Attribute) and par.attr in ("shape", "size"):
                                 continue
                             val_idx = True
-                    uses_added = bool({n_ for n_ in txt_names if n_.startswith("add_") or n_ == "idx"})
+                    # "the added ones": anything computed from the method's own parameters
+                    pedges = dep_edges(m.node.body)
+                    from ..deps import forward_closure
+                    par = {a for a in m.params() if a != "self"}
+                    derived = forward_closure(par, pedges) | par
+                    uses_added = bool(txt_names & derived)
                     n += 1
                     report.add(rule, m.qual, f"unique-sample selector `{norm_stmt(a, 70)}`", f"{m.file}:{a.lineno}",
                                val_idx and uses_added,
